@@ -112,6 +112,37 @@ fn workload(tag: &str, random_ctx: bool) {
     c();
 }
 
+static LAZY: AtomicUsize = AtomicUsize::new(0);
+
+fn lz() -> (&'static str, &'static str) {
+    LAZY.fetch_add(1, Ordering::SeqCst);
+    ("lazy", "closure")
+}
+
+/// Closures passed to spans that are not recording must not be invoked.
+fn lazy_workload(tag: &str) {
+    let root = Span::root(format!("{}-root", tag), SpanContext::new(TraceId(0x77), SpanId(7))).with_property(lz);
+    let child = Span::enter_with_parent("lazy-child", &root).with_property(lz).with_properties(|| [lz()]);
+    let multi = Span::enter_with_parent("lazy-of-noop", &Span::noop()).with_property(lz);
+    root.add_property(lz);
+    child.add_properties(|| [lz(), lz()]);
+    multi.add_property(lz);
+    let local = LocalSpan::enter_with_local_parent("lazy-local").with_property(lz).with_properties(|| [lz()]);
+    LocalSpan::add_property(lz);
+    LocalSpan::add_properties(|| [lz()]);
+    let from_local = Span::enter_with_local_parent("lazy-from-local").with_property(lz);
+    {
+        let _g = root.set_local_parent();
+        let _l = LocalSpan::enter_with_local_parent("lazy-local-2").with_property(lz);
+        LocalSpan::add_property(lz);
+    }
+    drop(local);
+    drop(from_local);
+    drop(multi);
+    drop(child);
+    drop(root);
+}
+
 struct Dtor {
     kind: u8,
 }
@@ -290,6 +321,33 @@ fn main() {
             workload("post", false);
             fastrace::flush();
             extra = json!({"records_after_install": rep.0.lock().unwrap().len()});
+        }
+        "lazy-pre-reporter" => {
+            // no reporter yet: every span is a no-op span
+            lazy_workload("pre");
+            std::thread::spawn(|| lazy_workload("pre-thread")).join().unwrap();
+            let pre = LAZY.load(Ordering::SeqCst);
+            let rep = install(false);
+            // local operations without a local parent, spans derived from no-op spans
+            let noop = Span::noop();
+            let d = Span::enter_with_parent("lazy-derived", &noop).with_property(lz);
+            d.add_property(lz);
+            let l = LocalSpan::enter_with_local_parent("lazy-no-scope").with_property(lz);
+            LocalSpan::add_property(lz);
+            drop(l);
+            drop(d);
+            let post = LAZY.load(Ordering::SeqCst);
+            fastrace::flush();
+            std::thread::sleep(Duration::from_millis(30));
+            fastrace::flush();
+            let delivered: Vec<String> = rep.0.lock().unwrap().iter().map(|r| r.name.to_string()).collect();
+            extra = json!({"closures_before_reporter": pre, "closures_on_not_recording_spans": post - pre, "delivered": delivered.len()});
+            if pre != 0 || post != 0 {
+                panic!("{} property closures were invoked on spans that are not recording ({} before the reporter was installed)", post, pre);
+            }
+            if !delivered.is_empty() {
+                panic!("spans that were not recording were delivered: {:?}", delivered);
+            }
         }
         "deep-scopes" => {
             let _r = install(false);
